@@ -304,9 +304,14 @@ def c11_scripts(rng, tier, model_prefixes):
     for _ in range(n_gen):
         for kind in gen.KINDS:
             h = gen.valid_history(rng, kind, rng.randrange(4, 14), small=rng.random() < 0.5,
-                                  allow=("ratio", "ramp", "chunk", "reset"))
+                                  allow=("ratio", "ramp", "chunk", "reset") + (("partial",) if rng.random() < 0.5 else ()))
             n = calm(h[0])
             n["signal"] = "noise"
+            if rng.random() < 0.4:
+                # stretches of EXACT zeros that differ from channel to channel, some channels silent throughout
+                # (anything that short-cuts on silence must do so per channel - seeded change C11f)
+                n["signal"] = "burst"
+                n["seg"] = rng.choice([n["chunk"], 2 * n["chunk"], 3 * n["chunk"] + 7, 500, 64])
             n.pop("probe", None)
             n["T"] = rng.choice([32, 64])
             if kind.startswith("Sinc") and rng.random() < 0.4:
